@@ -16,7 +16,7 @@ BOUNDS = {
     "quick": "every labelled loop-free graph on 1..4 vertices (isolated vertices allowed) and every 5-vertex graph with <= 4 edges; 4-vertex graphs also with descending / mixed insertion order and as a second cover of "
              "one graph object after an edge was moved in place; size limit in "
              "{0,2,3,4}; full n! orderings when n! <= 120, otherwise the block reduction",
-    "thorough": "every graph on <= 5 vertices, 6-vertex graphs with <= 7 edges; full n! when <= 720",
+    "thorough": "every graph on <= 4 vertices, 5-vertex graphs with <= 6 edges, 6-vertex graphs with <= 7 edges; full n! when <= 720",
 }
 OUTSIDE = "graphs with 7+ vertices; orderings outside the block reduction for larger clique lists; self-loops (excluded by the property)"
 ASSUMPTIONS = [
@@ -45,7 +45,7 @@ def configs(tier):
     for ms in (0, 3):
         cfgs.append({"name": f"n4-max{ms}-second-call", "n": 4, "max_size": ms, "maxe": 4, "tier": tier, "second": True})
     for ms in (0, 2, 3, 4):
-        cfgs.append({"name": f"n5-max{ms}", "n": 5, "max_size": ms, "maxe": 4 if q else 10, "tier": tier})
+        cfgs.append({"name": f"n5-max{ms}", "n": 5, "max_size": ms, "maxe": 4 if q else 6, "tier": tier})
     # cliques of 10 and 11 vertices (two-digit sizes in the labels), one fixed ordering of the shuffle and its reverse
     cfgs.append({"name": "K10-max0", "n": 10, "max_size": 0, "tier": tier, "fixed_graph": "K10"})
     cfgs.append({"name": "K11-max10", "n": 11, "max_size": 10, "tier": tier, "fixed_graph": "K11"})
